@@ -530,6 +530,8 @@ struct Wf<'a> {
     rows: Vec<ObsRow>,
     depth: usize,
     why: &'static str,
+    /// every element of the array being read so far is a scalar
+    scalars_only: bool,
 }
 
 #[derive(Clone, Copy, PartialEq)]
@@ -613,6 +615,9 @@ impl<'a> Wf<'a> {
         self.push_tok(String::new());
         self.depth += 1;
         let is_obj;
+        let mut mixed_pairs = 0usize;
+        let saved_scalars_only = self.scalars_only;
+        self.scalars_only = true;
         match flavour {
             Norm::Os => {
                 self.take(After::Key);
@@ -629,7 +634,33 @@ impl<'a> Wf<'a> {
                 } else {
                     let mut n = 0;
                     while !matches!(self.peek(), Some(Norm::E) | None) {
-                        if matches!(self.peek(), Some(Norm::Op(_)) | Some(Norm::Mm)) { return self.fail("operator-in-array"); }
+                        // `start_mixed_mode` after at least one element of a `write_array_start` array, then
+                        // (scalar key, operator, scalar value)* up to `write_end`: C15_mixed_parse_back
+                        if matches!(self.peek(), Some(Norm::Mm)) {
+                            if unknown || n == 0 || !self.scalars_only { return self.fail("mixed-mode-outside-the-proved-shape"); }
+                            self.take(After::Elem);
+                            let mut first = true;
+                            while let Some(Norm::Scalar(b, q, src)) = self.peek() {
+                                let o = match self.peek2() { Some(Norm::Op(o)) => *o, _ => return self.fail("mixed-pair-without-operator") };
+                                // the two shapes for which the claim is false on the real code (reported; see C15_mixed_parse_back)
+                                if o == Op::Exists { return self.fail("mixed-exists-operator(reported)"); }
+                                if first && n == 1 && !*q && b.as_slice() == b"?" { return self.fail("mixed-bare-question-key(reported)"); }
+                                if first { self.push_tok("M".to_string()); first = false; }
+                                self.push_scalar(b, *q, src)?;
+                                self.take(After::Elem);
+                                self.push_tok(format!("Op:{}", o.name()));
+                                self.take(After::Elem);
+                                match self.peek() {
+                                    Some(Norm::Scalar(b2, q2, src2)) => { self.push_scalar(b2, *q2, src2)?; self.take(After::Elem); }
+                                    _ => return self.fail("mixed-pair-value-not-a-scalar"),
+                                }
+                                mixed_pairs += 1;
+                            }
+                            if !matches!(self.peek(), Some(Norm::E)) { return self.fail("mixed-mode-outside-the-proved-shape"); }
+                            break;
+                        }
+                        if matches!(self.peek(), Some(Norm::Op(_))) { return self.fail("operator-in-array"); }
+                        if !matches!(self.peek(), Some(Norm::Scalar(..))) { self.scalars_only = false; }
                         let before = self.toks.len();
                         // the first scalar of a `write_start` container leaves the kind still unknown
                         self.value(false, if unknown && n == 0 { After::None } else { After::Elem })?;
@@ -651,7 +682,8 @@ impl<'a> Wf<'a> {
         self.take(after);
         let end = self.toks.len();
         self.push_tok(format!("E{}", start));
-        self.toks[start] = format!("{}{}", if is_obj { "O" } else { "A" }, end);
+        self.toks[start] = format!("{}{}{}", if is_obj { "O" } else { "A" }, if mixed_pairs > 0 { "m" } else { "" }, end);
+        self.scalars_only = saved_scalars_only;
         Some(())
     }
 }
@@ -660,7 +692,7 @@ struct WfResult { tape: String, src: Vec<Src>, rows: Vec<ObsRow> }
 
 fn well_formed(calls: &[Call]) -> Result<WfResult, &'static str> {
     let norm: Vec<Norm> = calls.iter().map(normalize).collect();
-    let mut p = Wf { calls: &norm, pos: 0, toks: vec![], src: vec![], rows: vec![], depth: 0, why: "" };
+    let mut p = Wf { calls: &norm, pos: 0, toks: vec![], src: vec![], rows: vec![], depth: 0, why: "", scalars_only: true };
     let ok = p.fields(false, After::None, false).is_some();
     if !ok { return Err(p.why); }
     if p.pos != norm.len() { return Err(if p.why.is_empty() { "key-expected" } else { p.why }); }
@@ -1133,6 +1165,48 @@ pub fn gen_c15(g: &mut Gen) {
         emit(g, b' ', 2, &calls);
     }
     g.count("floats");
+
+    // 6. scalar-only mixed-mode call lists (C15_mixed_parse_back): key, write_array_start, elements,
+    // start_mixed_mode, (key, operator, value)*, write_end — at the root and nested, every operator;
+    // a few with the two shapes that do not parse back (`?=`, the bare key `?` right behind the first
+    // element): those are counted as not-wf:mixed-*(reported)
+    fn mscalar(rng: &mut Rng) -> Call {
+        match rng.below(12) {
+            0..=3 => Call::Unquoted(rng.pick(&[&b"a"[..], b"b1", b"-5", b"x.y", b"1444.11.11", b"yes", b"x?", b"@v"]).to_vec()),
+            4 | 5 => Call::Quoted(payload(rng)),
+            6 => Call::I32(rng.next() as i32 >> rng.below(32)),
+            7 => Call::U64(rng.next() >> rng.below(64)),
+            8 => Call::Bool(rng.chance(1, 2)),
+            9 => Call::Date(*rng.pick(&['s', 'w']), (rng.next() as i16) >> rng.below(16), 1 + rng.below(12) as u8, 1 + rng.below(28) as u8, rng.below(25) as u8),
+            10 => Call::Binary(BinT::Unquoted(b"tok".to_vec())),
+            _ => Call::F64(f64::to_bits((rng.next() % 2_000_001) as f64 / 1000.0 - 1000.0)),
+        }
+    }
+    let n = g.budget(2_500, 40_000);
+    for _ in 0..n {
+        let mut calls = vec![];
+        let wrap = g.rng.below(4);
+        for _ in 0..wrap { calls.push(Call::Unquoted(b"n".to_vec())); calls.push(Call::ObjectStart); }
+        if g.rng.chance(1, 3) { calls.push(Call::Unquoted(b"p".to_vec())); calls.push(Call::Unquoted(b"q".to_vec())); }
+        calls.push(Call::Unquoted(b"data".to_vec()));
+        calls.push(if g.rng.chance(1, 4) { Call::Binary(BinT::Array(0)) } else { Call::ArrayStart });
+        for _ in 0..1 + g.rng.below(3) { let c = mscalar(&mut g.rng); calls.push(c); }
+        calls.push(if g.rng.chance(1, 4) { Call::Binary(BinT::Mixed) } else { Call::Mixed });
+        let pairs = g.rng.below(4);
+        for i in 0..pairs {
+            let key = if i == 0 && g.rng.chance(1, 40) { Call::Unquoted(b"?".to_vec()) } else { mscalar(&mut g.rng) };
+            calls.push(key);
+            let op = if g.rng.chance(1, 25) { Op::Exists } else { *g.rng.pick(&[Op::Eq, Op::Eq, Op::Lt, Op::Le, Op::Gt, Op::Ge, Op::Ne, Op::Exact]) };
+            calls.push(if op == Op::Eq && g.rng.chance(1, 4) { Call::Binary(BinT::Equal) } else { Call::Operator(op) });
+            let c = mscalar(&mut g.rng); calls.push(c);
+        }
+        calls.push(Call::End);
+        if g.rng.chance(1, 2) { calls.push(Call::Unquoted(b"z".to_vec())); calls.push(Call::I32(1)); }
+        for _ in 0..wrap { calls.push(Call::End); }
+        let (ic, fac) = indent_cfg(&mut g.rng);
+        emit(g, ic, fac, &calls);
+    }
+    g.count("mixed-mode");
 }
 
 pub fn gen(g: &mut Gen) { gen_c15(g) }
